@@ -18,8 +18,37 @@ pub fn src_s(s: LenSource) -> &'static str {
     }
 }
 
+/// variant name of a layer (explicit: independent of how the crate renders it)
 pub fn layer_s(l: Layer) -> String {
-    format!("{:?}", l)
+    match l {
+        Layer::LinuxSllHeader => "LinuxSllHeader",
+        Layer::Ethernet2Header => "Ethernet2Header",
+        Layer::EtherPayload => "EtherPayload",
+        Layer::VlanHeader => "VlanHeader",
+        Layer::MacsecHeader => "MacsecHeader",
+        Layer::MacsecPacket => "MacsecPacket",
+        Layer::IpHeader => "IpHeader",
+        Layer::Ipv4Header => "Ipv4Header",
+        Layer::Ipv4Packet => "Ipv4Packet",
+        Layer::IpAuthHeader => "IpAuthHeader",
+        Layer::Ipv6Header => "Ipv6Header",
+        Layer::Ipv6Packet => "Ipv6Packet",
+        Layer::Ipv6ExtHeader => "Ipv6ExtHeader",
+        Layer::Ipv6HopByHopHeader => "Ipv6HopByHopHeader",
+        Layer::Ipv6DestOptionsHeader => "Ipv6DestOptionsHeader",
+        Layer::Ipv6RouteHeader => "Ipv6RouteHeader",
+        Layer::Ipv6FragHeader => "Ipv6FragHeader",
+        Layer::UdpHeader => "UdpHeader",
+        Layer::UdpPayload => "UdpPayload",
+        Layer::TcpHeader => "TcpHeader",
+        Layer::Icmpv4 => "Icmpv4",
+        Layer::Icmpv4Timestamp => "Icmpv4Timestamp",
+        Layer::Icmpv4TimestampReply => "Icmpv4TimestampReply",
+        Layer::Icmpv6 => "Icmpv6",
+        Layer::Igmp => "Igmp",
+        Layer::Arp => "Arp",
+    }
+    .to_string()
 }
 
 #[derive(Clone, Debug, PartialEq)]
